@@ -35,16 +35,3 @@ func (c *FillCache) VerifSnapshot() VerifFillSnapshot {
 
 // VerifSetMaxJitter sets the start-up jitter of RefreshLoop (the field is otherwise only set by tests).
 func (c *FillCache) VerifSetMaxJitter(d time.Duration) { c.maxJitter = d }
-
-// VerifKeys lists the keys the local cache currently holds (whatever their encoding), so that the harness can let an
-// entry expire without building a key by hand.
-func (lc *LocalCache) VerifKeys() []CacheKey {
-	var ks []CacheKey
-	lc.localCacheData.Range(func(k, _ interface{}) bool {
-		if ck, ok := k.(CacheKey); ok {
-			ks = append(ks, ck)
-		}
-		return true
-	})
-	return ks
-}
